@@ -122,12 +122,14 @@ def prog_follow(ctx):
 
 def run(ctx):
     ctx.assumptions = ASSUME
-    ctx.rule = ("follow: (map kind of 6, grid 32..256, order 2-4, shift, smooth displacement field) x 12 particles; followdyn: (dynamic RF map linear/sinus x phase modulation / noise / both, grid 48..192, order 2-4) x 12 consecutive steps, one blob + particle per step; ingrid: (all kick kinds with displacements up to 0.44 n, FP map x 4 tracking models x FP type x stencil x decrement) x 160 particles incl. 100 edge combinations x 12..400 steps; "
+    ctx.rule = ("follow: (map kind of 6, grid 32..256, order 2-4, shift, smooth displacement field) x 12 particles; followfp: (Fokker-Planck map full / damping only x derivative stencil 3/4 x deterministic tracking model 1/2, grid 48..128, decrement 2e-3..3e-2) x 8 blobs + particles at least a quarter of the grid from zero energy; followdyn: (dynamic RF map linear/sinus x phase modulation / noise / both, grid 48..192, order 2-4) x 12 consecutive steps, one blob + particle per step; ingrid: (all kick kinds with displacements up to 0.44 n, FP map x 4 tracking models x FP type x stencil x decrement) x 160 particles incl. 100 edge combinations x 12..400 steps; "
                 "ensemble: (grid, shifts, steps per period, decrement) x 20000 particles x five damping times; program: tracking files with edge particles under ASan/UBSan; distinct by parameters")
     th = ctx.tier == "thorough"
     core.run_harness(ctx, "c15", 12000 if th else 600, args=["--mode", "follow"])
     core.run_harness(ctx, "c15", 6000 if th else 360, args=["--mode", "followdyn"])
     core.run_harness(ctx, "c15", 200 if th else 36, variant="asan", args=["--mode", "followdyn"])
+    core.run_harness(ctx, "c15", 4000 if th else 320, args=["--mode", "followfp"])
+    core.run_harness(ctx, "c15", 160 if th else 32, variant="asan", args=["--mode", "followfp"])
     core.run_harness(ctx, "c15", 12000 if th else 720, args=["--mode", "ingrid"])
     core.run_harness(ctx, "c15", 800 if th else 96, variant="asan", args=["--mode", "ingrid"])
     core.run_harness(ctx, "c15", 400 if th else 48, variant="asan", args=["--mode", "follow"])
@@ -137,4 +139,4 @@ def run(ctx):
     ctx.min_events = {"particles_followed": 3000, "particle_moves_checked": 200000, "ensemble_snapshots": 100,
                       "fp_track_model.0": 10, "fp_track_model.1": 10, "fp_track_model.2": 10, "fp_track_model.3": 10,
                       "tracking_runs_under_sanitizer": 4,
-                      "particles_followed_dynamic_rf": 2000, "followdyn_cases_with_kick_changing_between_steps": 150, "ensembles_under_fp_alone": 3, "program_runs_particle_on_modulated_centroid": 2}
+                      "particles_followed_dynamic_rf": 2000, "particles_followed_through_fp_step": 1500, "followdyn_cases_with_kick_changing_between_steps": 150, "ensembles_under_fp_alone": 3, "program_runs_particle_on_modulated_centroid": 2}
